@@ -1,3 +1,8 @@
 pub mod c01;
 pub mod c02;
 pub mod c04;
+pub mod c12;
+pub mod c16;
+pub mod c17;
+pub mod c18;
+pub mod c19;
